@@ -236,6 +236,7 @@ func mergeStats(a, b *Stats) *Stats {
 	a.Elapsed += b.Elapsed
 	a.Samples = append(a.Samples, b.Samples...)
 	a.ConfValidated += b.ConfValidated
+	a.ConfRefusals += b.ConfRefusals
 	a.Frontier = append(a.Frontier, b.Frontier...)
 	return a
 }
